@@ -19,6 +19,12 @@
  *   init <pref>:<nsocks> ...        rtr_mgr_init      -> "rc=<rc>" [+ observation]
  *   ev <pref> <idx> <state> <0|1>   last_update := (flag ? now : 0); rtr_change_socket_state
  *   add <pref> <nsocks>             rtr_mgr_add_group
+ *   addf <pref> <nsocks> <k>        rtr_mgr_add_group while the k-th lrtr_malloc of the call returns NULL
+ *                                   (allocator installed with lrtr_set_alloc_functions for this call only)
+ *   setiv <pref> <refresh> <expire> <retry>
+ *                                   what an End of Data PDU does to sockets[0] of the group when that socket
+ *                                   is in RTR_INTERVAL_MODE_ACCEPT_ANY: the three interval fields are set to
+ *                                   the announced values as they are (rtr_mgr_add_group copies them)
  *   remove <pref>                   rtr_mgr_remove_group
  *   start | stop                    rtr_mgr_start | rtr_mgr_stop
  *   free                            rtr_mgr_stop + rtr_mgr_free
@@ -26,6 +32,7 @@
  *                groups=<pref>:<STATUS>:<state.synced.thread>,...|..."
  */
 #define _GNU_SOURCE
+#include "rtrlib/lib/alloc_utils.h"
 #include "rtrlib/lib/utils_private.h"
 #include "rtrlib/rtr/packets_private.h"
 #include "rtrlib/rtr/rtr_private.h"
@@ -193,6 +200,16 @@ static void status_cb(const struct rtr_mgr_group *g, enum rtr_mgr_status st, con
 		ev_append("STATUS-FIELD-MISMATCH");
 }
 
+/* ---------------------------------------------------------------- allocator that refuses the k-th request */
+static unsigned long alloc_seen, alloc_fail_at;
+
+static void *counting_malloc(size_t n)
+{
+	if (++alloc_seen == alloc_fail_at)
+		return NULL;
+	return malloc(n);
+}
+
 /* ---------------------------------------------------------------- helpers */
 static bool parse_uint(const char *s, unsigned long max, unsigned long *out)
 {
@@ -343,12 +360,13 @@ int main(void)
 			rtr_change_socket_state(s, (enum rtr_socket_state)st);
 			printf("rc=0");
 			observe();
-		} else if (!strcmp(w[0], "add") && conf && n == 3) {
-			unsigned long p, k;
+		} else if (((!strcmp(w[0], "add") && n == 3) || (!strcmp(w[0], "addf") && n == 4)) && conf) {
+			unsigned long p, k, f = 0;
 			struct rtr_mgr_group g;
 			int rc;
 
-			if (!parse_uint(w[1], 255, &p) || !parse_uint(w[2], MAXSOCKS, &k) || k == 0) {
+			if (!parse_uint(w[1], 255, &p) || !parse_uint(w[2], MAXSOCKS, &k) || k == 0 ||
+			    (n == 4 && (!parse_uint(w[3], 9, &f) || f == 0))) {
 				puts("bad-op");
 				continue;
 			}
@@ -357,8 +375,37 @@ int main(void)
 			g.sockets_len = (unsigned int)k;
 			g.sockets = make_sockets((int)p, (unsigned int)k);
 			g.status = RTR_MGR_ERROR; /* must be overwritten by add_group */
+			if (f) {
+				alloc_seen = 0;
+				alloc_fail_at = f;
+				lrtr_set_alloc_functions(counting_malloc, realloc, free);
+			}
 			rc = rtr_mgr_add_group(conf, &g);
+			if (f)
+				lrtr_set_alloc_functions(malloc, realloc, free);
 			printf("rc=%d", rc);
+			observe();
+		} else if (!strcmp(w[0], "setiv") && conf && n == 5) {
+			unsigned long p, a, b, c;
+			struct find f = {0, NULL};
+			struct rtr_socket *s;
+
+			if (!parse_uint(w[1], 255, &p) || !parse_uint(w[2], 999999999, &a) ||
+			    !parse_uint(w[3], 999999999, &b) || !parse_uint(w[4], 999999999, &c)) {
+				puts("bad-op");
+				continue;
+			}
+			f.pref = (unsigned int)p;
+			rtr_mgr_for_each_group(conf, find_group, &f);
+			if (!f.g) {
+				puts("bad-op");
+				continue;
+			}
+			s = f.g->sockets[0];
+			s->refresh_interval = (unsigned int)a;
+			s->expire_interval = (unsigned int)b;
+			s->retry_interval = (unsigned int)c;
+			printf("rc=0");
 			observe();
 		} else if (!strcmp(w[0], "remove") && conf && n == 2) {
 			unsigned long p;
